@@ -9,6 +9,7 @@ mod s3stub;
 mod seq;
 mod tcp;
 mod util;
+mod ws;
 mod world;
 
 fn usage() -> ! {
@@ -60,6 +61,34 @@ fn main() {
             Err(e) => println!("bootstrap failed: {}", e),
         }
         world::cleanup_scratch();
+        std::process::exit(0);
+    }
+    if args[1] == "ws-demo" {
+        use world::*;
+        let node = Node::new_single("ws-demo");
+        let mut admin = Session::new();
+        admin.exec(&node, &format!("auth {} {}", USER, PWD));
+        admin.exec(&node, "create-db t tok none");
+        let _ = admin.disconnect(&node);
+        let ws = ws::WsServer::start(node.dbs.clone());
+        let mut c = ws.connect().unwrap();
+        println!("use-db: {:?}", c.cmd("use-db t tok"));
+        println!("set;get: {:?}", c.cmd("set k 1;get k;get nope"));
+        println!("watch: {:?}", c.cmd("watch k;set k 2"));
+        println!("extra: {:?}", c.read_replies(1, 200));
+        let mut d = ws.connect().unwrap();
+        println!("binary utf8 sent: {}", d.send_binary(b"get k"));
+        println!("  -> {:?}", d.read_replies(1, 300));
+        println!("service dead: {} panics {}", ws.service_dead(), world::PANIC_COUNT.load(std::sync::atomic::Ordering::SeqCst));
+        let mut e = ws.connect().unwrap();
+        println!("binary non-utf8 sent: {}", e.send_binary(&[0xff, 0xfe, b' ', b'k']));
+        println!("  -> {:?}", e.read_replies(1, 300));
+        std::thread::sleep(std::time::Duration::from_millis(200));
+        println!("service dead: {} panics {}", ws.service_dead(), world::PANIC_COUNT.load(std::sync::atomic::Ordering::SeqCst));
+        println!("panic log: {:?}", world::PANIC_LOG.lock().unwrap().last());
+        println!("first conn still served: {:?}", c.cmd("get k"));
+        println!("new conn: {:?}", ws.connect().map(|_| ()));
+        println!("close: {}", c.close_and_wait());
         std::process::exit(0);
     }
     if args[1] == "crash-selftest" {
